@@ -16,9 +16,11 @@ import (
 
 	corev1 "k8s.io/api/core/v1"
 	"k8s.io/apimachinery/pkg/types"
+
+	edsv1 "github.com/DataDog/extendeddaemonset/api/v1alpha1"
 )
 
-var c11Scenarios = []string{"first-deploy", "rolling-update", "canary-time", "canary-validate", "canary-fail", "canary-fail-late", "canary-strategy-removed", "node-churn", "setting-change", "migration"}
+var c11Scenarios = []string{"first-deploy", "rolling-update", "canary-time", "canary-validate", "canary-fail", "canary-fail-late", "canary-strategy-removed", "canary-hold", "node-churn", "setting-change", "migration"}
 
 const c11Slices = 6
 
@@ -42,6 +44,10 @@ func genC11World(r *rand.Rand, scenario string) *World {
 		e.Strategy.Canary = &CanaryDef{Replicas: pick(r, "1", "2", "100%", "100%"), ValidationMode: "manual"}
 	case "canary-fail":
 		e.Strategy.Canary = &CanaryDef{Replicas: "1", Duration: "30m"}
+	case "canary-hold":
+		// a canary that starts and then waits for its manual validation; the daemon pod of the first
+		// node has restarted, so that node is not the one a failure-free run picks
+		e.Strategy.Canary = &CanaryDef{Replicas: "1", ValidationMode: "manual"}
 	case "canary-strategy-removed":
 		// a paused canary whose strategy the user then removes from the spec: the canary is over,
 		// its block and its pause annotations go, the new template is rolled out
@@ -132,8 +138,46 @@ func bodyC11(s *Sim) {
 		}
 		return true
 	}
+	conv := s.allConverged
+	if scen == "canary-hold" {
+		// converged = the canary runs on its nodes and every other node keeps a Ready pod of the active template
+		conv = func() bool {
+			e := s.Store.GetEDS(def.NS, def.Name)
+			if !canaryRunning() || e == nil || e.Status.State != edsv1.ExtendedDaemonSetStatusStateCanary {
+				return false
+			}
+			cn := map[string]bool{}
+			for _, n := range e.Status.Canary.Nodes {
+				cn[n] = true
+			}
+			for _, n := range s.Store.Nodes() {
+				ok := cn[n.Name]
+				for _, p := range s.Store.Pods() {
+					if podNode(p) == n.Name && letterOfPod(p) == "A" && podReady(p) && !terminating(p) {
+						ok = true
+					}
+				}
+				if !ok {
+					return false
+				}
+			}
+			return true
+		}
+		if nodes := s.Store.Nodes(); len(nodes) > 0 {
+			for _, p := range s.Store.Pods() {
+				if podNode(p) == nodes[0].Name && isDaemonPod(p, def.NS, def.Name) {
+					s.kRestart(p, "Error")
+					if pp := s.Store.GetPod(p.Namespace, p.Name); pp != nil {
+						s.kSettle(pp)
+					}
+				}
+			}
+		}
+	}
 	switch scen {
 	case "first-deploy", "migration":
+	case "canary-hold":
+		s.userSetTemplate(def.NS, def.Name, "B")
 	case "rolling-update":
 		s.userSetTemplate(def.NS, def.Name, "B")
 	case "canary-time":
@@ -184,18 +228,18 @@ func bodyC11(s *Sim) {
 			s.Store.ForceUpdate(st)
 		}
 	}
-	s.until(r, max, func() bool { return s.allConverged() && s.faultsDone() })
+	s.until(r, max, func() bool { return conv() && s.faultsDone() })
 	s.countCalls = false
 	// failure-free reconciliation to quiescence
 	s.until(r, 6, func() bool { return false })
-	s.until(r, max, s.allConverged)
+	s.until(r, max, conv)
 	// time-based clean-up (retention of a failed replica set) must be over in both runs
 	s.Advance(3 * time.Minute)
 	for i := 0; i < 3; i++ {
 		s.step++
 		s.Round(r)
 	}
-	if !s.allConverged() {
+	if !conv() {
 		_, why, _ := s.convergedEDS(def)
 		s.Violate("C11", "convergence", "", "scenario %s with fault %s@%d: not converged after the fault stopped: %s", scen, s.faultKind, s.faultAt, why)
 	}
@@ -237,6 +281,9 @@ func (s *Sim) abstractFinal() string {
 			if strings.HasPrefix(k, "extendeddaemonset.datadoghq.com/canary-") {
 				anns = append(anns, shortAnn(k)+"="+e.Annotations[k])
 			}
+		}
+		if e.Status.Canary != nil {
+			anns = append(anns, fmt.Sprintf("canary-nodes=%v", e.Status.Canary.Nodes))
 		}
 		parts = append(parts, fmt.Sprintf("eds:%s spec=%s active=%s canary=%v state=%s d%d c%d r%d a%d u%d ann=%v", e.Name, letterOfTpl(&e.Spec.Template), al, e.Status.Canary != nil, e.Status.State, e.Status.Desired, e.Status.Current, e.Status.Ready, e.Status.Available, e.Status.UpToDate, anns))
 	}
